@@ -15,14 +15,16 @@
    These are theorems about the code AFTER commit d3068df (finding 11 repaired: Abort / AbortLanes /
    AbortUnreadyLanes evaluate readiness once, after all statuses have been rewritten); before it the abort
    theorems were false (witness [C:Do; A:Done; B:Done], kept below as a regression example).
-   Also proved: Error is final and a failed task is named by Err whenever the change reports Error (names only).
-   NOT PROVED (monitored on every observed history instead, see notes/C03.md): settling (liveness; the progress step is
-   C01_no_deadlock_pass); agreement of isChangeWaiting with the memo-free statement when tasks are in Wait; the
+   Also proved: Error is final; a task is in Error iff its handler failed; Err names exactly the failed tasks whenever
+   the change reports Error; the status table of a settled change and `settled: Error iff some handler failed`.
+   Also proved: C03_settles (liveness, bounded rounds).
+   NOT PROVED (monitored on every observed history instead, see notes/C03.md): agreement of isChangeWaiting with the memo-free statement when tasks are in Wait; the
    messages of Err (task logs are not modelled). *)
 From Coq Require Import List NArith ZArith Bool.
 Import ListNotations.
 Require Import V.models.TaskEngine V.proofs.TaskEngineProofs V.proofs.TaskEngineStatus V.proofs.TaskEngineReady
-               V.proofs.TaskEngineDoing V.proofs.TaskEngineFuel V.proofs.TaskEngineLive V.proofs.TaskEngineErr V.proofs.TaskEngineWait.
+               V.proofs.TaskEngineDoing V.proofs.TaskEngineFuel V.proofs.TaskEngineLive V.proofs.TaskEngineErr V.proofs.TaskEngineWait V.proofs.TaskEngineSettled
+               V.proofs.TaskEnginePass V.proofs.TaskEngineSettle.
 
 (* Change.Status of a change with tasks is a ready status (Done, Undone, Hold, Error) iff every task is ready *)
 Theorem C03_status_ready_iff_all_tasks_ready : forall l : list task,
@@ -111,18 +113,86 @@ Theorem C03_error_is_final : forall (s : state) (e : event) (u : nat),
 Proof. exact error_final_step. Qed.
 Print Assumptions C03_error_is_final.
 
-(* Err clause, PARTIAL (names, not messages): in every history with user aborts on unready changes only, a task whose
-   handler returned an error is in Error at every later point of the history, and whenever the change then reports
-   Error, Change.Err names it. That the line carries the error the task FAILED with (its last ERROR log line, not an
-   earlier one it logged itself) is outside the model - task logs are not modelled - and is checked by the driver's
-   per-task comparison of Err() on every observed history. *)
-Theorem C03_err_names_failed_tasks_partial : forall (g : list tdesc) (es1 es2 : list event) (t : nat),
-  g <> [] -> guarded (init_state g) (es1 ++ Finish t OErr :: es2) ->
-  In t (running (run_events (init_state g) es1)) ->
-  let s := run_events (init_state g) (es1 ++ Finish t OErr :: es2) in
-  st s t = Error /\ (change_status (tasks s) = Error -> In t (err_tasks (tasks s))).
-Proof. exact failed_task_stays_named. Qed.
-Print Assumptions C03_err_names_failed_tasks_partial.
+(* Err clause, names in full. failed_of s0 es lists the tasks whose handler returned an error in the history es (the
+   completion events `Finish t OErr` that were enabled). Over every tame history on a non-empty closed graph:
+   a task is in Error iff its handler returned an error ... *)
+Theorem C03_error_iff_handler_failed : forall (g : list tdesc) (es : list event) (u : nat),
+  g <> [] -> closed g -> tame (init_state g) es ->
+  (st (run_events (init_state g) es) u = Error <-> In u (failed_of (init_state g) es)).
+Proof. exact error_iff_failed. Qed.
+Print Assumptions C03_error_iff_handler_failed.
+
+(* ... and Change.Err names EXACTLY those tasks whenever the change reports Error (and nothing otherwise). This
+   replaces C03_err_names_failed_tasks_partial. What the model cannot say is the TEXT of each line (that it is the
+   error the task failed with, i.e. its last ERROR log line, printed verbatim): task logs and formatting are not
+   modelled; that part stays tied by the driver's per-task comparison of Err() on every observed history. *)
+Theorem C03_err_names_exactly_failed_tasks : forall (g : list tdesc) (es : list event) (u : nat),
+  g <> [] -> closed g -> tame (init_state g) es ->
+  let s := run_events (init_state g) es in
+  (In u (err_tasks (tasks s)) <-> change_status (tasks s) = Error /\ In u (failed_of (init_state g) es)).
+Proof. exact err_names_exactly_failed. Qed.
+Print Assumptions C03_err_names_exactly_failed_tasks.
+
+(* the status of a settled change, completely: Error if some task is in Error, else Undone, else Done, else Hold *)
+Theorem C03_settled_status_table : forall l : list task,
+  all_ready l = true ->
+  change_status l =
+  if has_status l Error then Error else if has_status l Undone then Undone else if has_status l Done then Done else Hold.
+Proof. exact settled_status_table. Qed.
+Print Assumptions C03_settled_status_table.
+
+(* a settled state of a tame history: no tomb, flagged ready, reports Error iff some handler returned an error, and Err
+   names exactly the failed tasks *)
+Theorem C03_settled_error_iff_handler_failed : forall (g : list tdesc) (es : list event),
+  g <> [] -> closed g -> tame (init_state g) es ->
+  let s := run_events (init_state g) es in
+  all_ready (tasks s) = true ->
+  running s = [] /\ cready s = true /\
+  (change_status (tasks s) = Error <-> failed_of (init_state g) es <> []) /\
+  (forall u, In u (err_tasks (tasks s)) <-> In u (failed_of (init_state g) es)).
+Proof. exact settled_error_iff_failed. Qed.
+Print Assumptions C03_settled_error_iff_handler_failed.
+
+(* non-vacuity: chain 0 <- 1, task 1 fails, task 0 is undone; closed graph, tame history, settled, Err names [1] *)
+Example C03_settled_nonvacuous :
+  let g := [([], [], true); ([], [0], true)] in
+  let es := [Ensure [0;1]; Finish 0 OOk; Ensure [0;1]; Finish 1 OErr; Ensure [0;1]; Finish 0 OOk; Ensure [0;1]] in
+  let s := run_events (init_state g) es in
+  closed g /\ tame (init_state g) es /\ all_ready (tasks s) = true /\
+  failed_of (init_state g) es = [1] /\ err_tasks (tasks s) = [1] /\
+  map t_st (tasks s) = [Undone; Error] /\ change_status (tasks s) = Error.
+Proof. exact settled_example. Qed.
+
+(* C03_settles (liveness). Every tame history on a non-empty closed graph with acyclic wait edges (rank function rk)
+   that leaves no task in Wait (no reboot pending) and no task scheduled for later (no delayed retry outstanding) can be
+   continued to a settled state by handlers that return: first every running handler finishes (nil or an error, as
+   the oracle oc0 says), then rounds  Ensure (ANY order that visits every task) ; every running handler finishes
+   (oracle of the round).  After  settle_bound n = n(5n+1)+5n+1  rounds, n the number of tasks - whatever the orders
+   and the oracles - every task is ready, no handler runs, the change is flagged ready and it reports Error iff some
+   task is in Error. Handlers answering Retry or Wait forever are excluded by the form of the rounds (they are what the
+   property's `handlers that eventually return / finitely many Retry` excludes); the potential is
+   (number of tasks in Error, sum of the positions of the task statuses along Do<Doing<Abort<Undo<Undoing<ready). *)
+Theorem C03_settles : forall (g : list tdesc) (rk : nat -> nat) (es : list event),
+  g <> [] -> closed g -> (forall t w, In w (waits_g g t) -> rk w < rk t) ->
+  tame (init_state g) es ->
+  let s0 := run_events (init_state g) es in
+  (forall t, st s0 t <> Wait) -> (forall t, t_at (get s0 t) = 0%Z) ->
+  forall (oc0 : nat -> bool) (rl : list (list nat * (nat -> bool))),
+  settle_bound (length g) <= length rl ->
+  (forall r, In r rl -> forall t, t < length g -> In t (fst r)) ->
+  let sF := iter_rounds rl (finish_all s0 oc0) in
+  all_ready (tasks sF) = true /\ running sF = [] /\ cready sF = true /\
+  (change_status (tasks sF) = Error <-> has_status (tasks sF) Error = true).
+Proof. exact settles. Qed.
+Print Assumptions C03_settles.
+
+(* non-vacuity: chain 0 <- 1 <- 2 from the start, task 1 fails: after the bound (64 rounds for 3 tasks) the statuses
+   are Undone, Error, Hold *)
+Example C03_settles_nonvacuous :
+  let g := [([], [], true); ([], [0], true); ([], [1], true)] in
+  let rl := repeat ([0; 1; 2], fun t => Nat.eqb t 1) (settle_bound 3) in
+  map t_st (tasks (iter_rounds rl (finish_all (init_state g) (fun _ => false)))) = [Undone; Error; Hold].
+Proof. exact settles_example. Qed.
 
 (* regression example, the former witness of finding 11: tasks [C waits A,B] after A and B completed, statuses
    [Do; Done; Done], change unready: Change.Abort now gives [Hold; Undo; Undo], no panic, change still unready
